@@ -289,7 +289,9 @@ def _(E, p):
 def _(E, p):
     from grid.becke import BeckeWeights
 
-    atnums = E.arr("atnums", np.array([8, 1, 1, 6, 7][: 2 + p % 4]), dtype=int)
+    # (every third variant contains atoms without a tabulated Bragg-Slater radius: He, Ne, Ar -> fallback branch)
+    zs = [8, 1, 1, 6, 7] if p % 3 else [8, 10, 1, 2, 18]
+    atnums = E.arr("atnums", np.array(zs[: 2 + p % 4]), dtype=int)
     m = len(atnums)
     atcoords = E.arr("atcoords", _pts3(m, 40, 2.0))
     n = 24
